@@ -29,10 +29,12 @@ import (
 	"bufio"
 	"context"
 	"encoding/json"
+	"errors"
 	"fmt"
 	"os"
 	"sort"
 	"strings"
+	"sync/atomic"
 	"time"
 
 	openfgav1 "github.com/openfga/api/proto/openfga/v1"
@@ -50,6 +52,62 @@ import (
 type noClose struct{ storage.OpenFGADatastore }
 
 func (noClose) Close() {}
+
+// faultDS makes the tuple reads fail while armed: failFrom = n > 0 lets the first n-1 reads through
+// and fails every later one until it is disarmed (a transient datastore outage during one request).
+type faultDS struct {
+	storage.OpenFGADatastore
+	failFrom atomic.Int64
+	reads    atomic.Int64
+	failed   atomic.Int64
+}
+
+var errInjected = errors.New("c10: injected datastore failure")
+
+func (f *faultDS) arm(n int) { f.reads.Store(0); f.failed.Store(0); f.failFrom.Store(int64(n)) }
+func (f *faultDS) disarm() int {
+	f.failFrom.Store(0)
+	return int(f.failed.Load())
+}
+func (f *faultDS) fail() bool {
+	n := f.failFrom.Load()
+	if n == 0 {
+		return false
+	}
+	if f.reads.Add(1) >= n {
+		f.failed.Add(1)
+		return true
+	}
+	return false
+}
+
+func (f *faultDS) Read(ctx context.Context, store string, filter storage.ReadFilter, o storage.ReadOptions) (storage.TupleIterator, error) {
+	if f.fail() {
+		return nil, errInjected
+	}
+	return f.OpenFGADatastore.Read(ctx, store, filter, o)
+}
+
+func (f *faultDS) ReadUserTuple(ctx context.Context, store string, filter storage.ReadUserTupleFilter, o storage.ReadUserTupleOptions) (*openfgav1.Tuple, error) {
+	if f.fail() {
+		return nil, errInjected
+	}
+	return f.OpenFGADatastore.ReadUserTuple(ctx, store, filter, o)
+}
+
+func (f *faultDS) ReadUsersetTuples(ctx context.Context, store string, filter storage.ReadUsersetTuplesFilter, o storage.ReadUsersetTuplesOptions) (storage.TupleIterator, error) {
+	if f.fail() {
+		return nil, errInjected
+	}
+	return f.OpenFGADatastore.ReadUsersetTuples(ctx, store, filter, o)
+}
+
+func (f *faultDS) ReadStartingWithUser(ctx context.Context, store string, filter storage.ReadStartingWithUserFilter, o storage.ReadStartingWithUserOptions) (storage.TupleIterator, error) {
+	if f.fail() {
+		return nil, errInjected
+	}
+	return f.OpenFGADatastore.ReadStartingWithUser(ctx, store, filter, o)
+}
 
 // ---- configuration ------------------------------------------------------------------------------
 
@@ -478,6 +536,7 @@ type Op struct {
 	Dels   []scen.Tuple `json:"d,omitempty"`
 	Probes []int        `json:"p,omitempty"` // indices into Plan.Probes
 	Cons   int          `json:"c,omitempty"` // 0 unspecified, 1 minimize latency, 2 higher consistency
+	Fault  int          `json:"f,omitempty"` // n > 0: from its n-th tuple read on, the datastore of the server under test fails during this request
 }
 
 type Plan struct {
@@ -785,6 +844,19 @@ func makePlan(sub uint64, cfgIdx int, tier string) *Plan {
 			}
 		}
 	}
+	// transient datastore faults: before a quarter of the HIGHER_CONSISTENCY Check / BatchCheck requests
+	// the same request is issued once while the tuple reads of the server under test fail (from the
+	// 1st, 2nd or 3rd read on).  It may fail; it must not answer with an old cached decision.
+	var withFaults []Op
+	for _, op := range p.ops {
+		if (op.Kind == "check" || op.Kind == "batch") && op.Cons == 2 && r.Chance(1, 4) {
+			f := op
+			f.Fault = r.Range(1, 3)
+			withFaults = append(withFaults, f)
+		}
+		withFaults = append(withFaults, op)
+	}
+	p.ops = withFaults
 	return p
 }
 
@@ -927,7 +999,10 @@ func (x *runner) write(ctx context.Context, ws, ds []scen.Tuple) error {
 	return err
 }
 
-type interner struct{ m map[string]int }
+type interner struct {
+	m          map[string]int
+	nerr, nset int
+}
 
 func (in *interner) code(a string) int {
 	switch a {
@@ -941,7 +1016,18 @@ func (in *interner) code(a string) int {
 	if c, ok := in.m[a]; ok {
 		return c
 	}
-	c := 3 + len(in.m)
+	// error classes 3..99, result sets 100.. (the model's is_error)
+	var c int
+	if strings.HasPrefix(a, "err") {
+		in.nerr++
+		c = 2 + in.nerr
+		if c > 99 {
+			panic("too many error classes")
+		}
+	} else {
+		in.nset++
+		c = 99 + in.nset
+	}
 	in.m[a] = c
 	return c
 }
@@ -954,7 +1040,8 @@ func runCase(ctx context.Context, w *rec.Writer, p *Plan) {
 	refCfg := Cfg{V2: p.Cfg.V2, Pipeline: p.Cfg.Pipeline}
 	ref := newServer(ds, refCfg, false)
 	defer ref.Close()
-	tst := newServer(ds, p.Cfg, true)
+	fds := &faultDS{OpenFGADatastore: ds}
+	tst := newServer(fds, p.Cfg, true)
 	defer tst.Close()
 
 	st, err := ref.CreateStore(ctx, &openfgav1.CreateStoreRequest{Name: "c10-store"})
@@ -988,13 +1075,23 @@ func runCase(ctx context.Context, w *rec.Writer, p *Plan) {
 	}
 	lastSeen := map[int]string{}
 	var ops []rec.V
-	emit := func(api int, pr Probe, cons int, obs, rf string, unstable bool) {
+	emit := func(api int, pr Probe, cons int, obs, rf string, unstable bool, fault bool) {
 		hi := cons == 2
 		if os.Getenv("C10_DEBUG") != "" {
 			fmt.Fprintf(os.Stderr, "req api=%d cons=%d probe=%+v obs=%q ref=%q unstable=%v\n", api, cons, pr, obs, rf, unstable)
 		}
 		ops = append(ops, rec.L(rec.I(1), rec.I(api), rec.Bool(hi), rec.I(pr.Key), rec.I(in.code(rf)), rec.I(in.code(obs)),
-			rec.Bool(unstable), clobber(pr)))
+			rec.Bool(unstable), clobber(pr), rec.Bool(fault)))
+		if fault {
+			switch {
+			case strings.HasPrefix(obs, "err"):
+				w.Stat("higher_under_fault_error", 1)
+			case obs == rf:
+				w.Stat("higher_under_fault_current_answer", 1)
+			default:
+				w.Stat("higher_under_fault_OTHER_DECISION", 1)
+			}
+		}
 		name := []string{"check", "batch_item", "list_objects", "list_users"}[api]
 		cn := []string{"unspecified", "minimize_latency", "higher"}[cons]
 		w.Stat("req_"+name+"_"+cn, 1)
@@ -1042,30 +1139,43 @@ func runCase(ctx context.Context, w *rec.Writer, p *Plan) {
 			ops = append(ops, rec.L(rec.I(0)))
 		case "check":
 			pr := p.probes[op.Probes[0]]
+			if op.Fault > 0 {
+				fds.arm(op.Fault)
+			}
 			obs := T.check(ctx, pr, op.Cons)
+			hit := fds.disarm() > 0
 			rf := R.check(ctx, pr, op.Cons)
 			unstable := false
-			if obs != rf && op.Cons == 2 {
+			if obs != rf && op.Cons == 2 && !strings.HasPrefix(obs, "err") {
 				unstable = R.check(ctx, pr, op.Cons) != rf
 			}
-			emit(0, pr, op.Cons, obs, rf, unstable)
+			if op.Fault > 0 && !hit {
+				w.Stat("fault_not_reached", 1)
+			}
+			emit(0, pr, op.Cons, obs, rf, unstable, op.Fault > 0)
 		case "batch":
 			var ps []Probe
 			for _, i := range op.Probes {
 				ps = append(ps, p.probes[i])
 			}
+			if op.Fault > 0 {
+				fds.arm(op.Fault)
+			}
 			obs := T.batch(ctx, ps, op.Cons)
+			if fds.disarm() == 0 && op.Fault > 0 {
+				w.Stat("fault_not_reached", 1)
+			}
 			rf := R.batch(ctx, ps, op.Cons)
 			var rf2 []string
 			for i := range ps {
 				unstable := false
-				if obs[i] != rf[i] && op.Cons == 2 {
+				if obs[i] != rf[i] && op.Cons == 2 && !strings.HasPrefix(obs[i], "err") {
 					if rf2 == nil {
 						rf2 = R.batch(ctx, ps, op.Cons)
 					}
 					unstable = rf2[i] != rf[i]
 				}
-				emit(1, ps[i], op.Cons, obs[i], rf[i], unstable)
+				emit(1, ps[i], op.Cons, obs[i], rf[i], unstable, op.Fault > 0)
 			}
 		case "lo":
 			pr := p.probes[op.Probes[0]]
@@ -1075,7 +1185,7 @@ func runCase(ctx context.Context, w *rec.Writer, p *Plan) {
 			if obs != rf && op.Cons == 2 {
 				unstable = R.listObjects(ctx, pr, op.Cons) != rf
 			}
-			emit(2, pr, op.Cons, obs, rf, unstable)
+			emit(2, pr, op.Cons, obs, rf, unstable, false)
 		case "lu":
 			pr := p.probes[op.Probes[0]]
 			obs := T.listUsers(ctx, pr, op.Cons)
@@ -1084,7 +1194,7 @@ func runCase(ctx context.Context, w *rec.Writer, p *Plan) {
 			if obs != rf && op.Cons == 2 {
 				unstable = R.listUsers(ctx, pr, op.Cons) != rf
 			}
-			emit(3, pr, op.Cons, obs, rf, unstable)
+			emit(3, pr, op.Cons, obs, rf, unstable, false)
 		}
 	}
 	w.Stat(fmt.Sprintf("template_%s", p.scen.Shape), 1)
